@@ -9,9 +9,13 @@ import (
 	"fmt"
 
 	"github.com/BondMachineHQ/BondMachine/pkg/bondmachine"
+	"github.com/BondMachineHQ/BondMachine/pkg/simbox"
 
 	"verif/harness/vlog"
 )
+
+// envSimDelays, when set, gives the simulator of runEnv / runEnvTimed per-opcode delays.
+var envSimDelays *simbox.SimDelays
 
 type envResult struct {
 	Outs     [][]uint64 // values consumed on each external output, in order
@@ -33,7 +37,7 @@ func runEnvTimed(bm *bondmachine.Bondmachine, input func(port, k int) uint64, ma
 			err = fmt.Errorf("panic: %v", e)
 		}
 	}()
-	vm, err := startVM(bm, nil)
+	vm, err := startVM(bm, envSimDelays)
 	if err != nil {
 		return res, err
 	}
